@@ -263,7 +263,8 @@ def zip_cases(draw):
     del case["suffix"]
     case["overwrite"] = draw(st.integers(0, 2)) == 0
     ntips = draw(st.integers(3, 6))
-    tips = draw(st.lists(st.text(alphabet=ALNUM, min_size=1, max_size=6), min_size=ntips, max_size=ntips, unique=True))
+    tip = st.builds(lambda a, b: a + b, st.sampled_from(list(ALNUM[:52])), st.text(alphabet=ALNUM, min_size=0, max_size=5))  # starts with a letter
+    tips = draw(st.lists(tip, min_size=ntips, max_size=ntips, unique=True))
     lengths = [draw(st.sampled_from([None, 1.0, 0.5, 2.25, 10.0, 0.125])) for _ in range(ntips)]
     case["tree"] = {"tips": tips, "lengths": lengths, "shape": draw(st.sampled_from(["star", "ladder"])), "suffix": draw(st.sampled_from(TREE_SUFFIXES))}
     return case
